@@ -73,6 +73,11 @@ SHAPES = [
     ("all defined: item, operand, key", M + BLOCK, ["@m", {"mov": ["@m"]}, {"@m": {"times": 2}}, "@blk"], False),
     ("all defined: user listed before used", [{"name": "@a", "pattern": [{"$or": ["@b", "zzz"]}]}, {"name": "@b", "pattern": "nop"}],
      ["@a"], False),
+    ("definitions that refer to each other in a cycle", [{"name": "@a", "pattern": [{"$or": ["@b", "xxx"]}]},
+                                                         {"name": "@b", "pattern": [{"$or": ["@a", "yyy"]}]}], ["@a", "nop"], False),
+    ("a definition whose body refers to itself", [{"name": "@s", "pattern": [{"$and": ["push", "@s"]}]}], ["@s"], False),
+    ("string macros that stand for each other", [{"name": "@p", "pattern": "@q"}, {"name": "@q", "pattern": "@p"}],
+     [{"mov": ["@p", "rax"]}], False),
     ("all defined: string macro inside a name", [{"name": "@any", "pattern": "[^,| ]{1,1000}"}], [{"mov": ["%r@any"]}], False),
 ]
 
